@@ -104,7 +104,8 @@ class Gen:
         if x < 0.80:
             return [r.choice(["0", "1", "2", "3", "10", "01", "00", "1.", "2.5"])]
         if x < 0.86:
-            return [r.choice(["f(a)", "log(b)", "{a+1}", "C(c, contr.treatment)", "`x y`", "np.log( a )", "`a:b`", "`a:b`", "`b:c:a`"])]
+            return [r.choice(["f(a)", "log(b)", "{a+1}", "C(c, contr.treatment)", "`x y`", "np.log( a )", "`a:b`", "`a:b`", "`b:c:a`",
+                              "{(a + b).abs()}", "{a[0].z}", "f(a)[0](b)", "{a.b.c()}"])]
         if x < 0.90:
             return ["."]
         if x < 0.92:
